@@ -11,9 +11,10 @@ def main():
     ids = [p["id"] for p in props]
     checks = []
     claimed = set()
+    accepted = set(json.load(open(os.path.join(common.VERIF, "harness", "claimed.json"))))
     for pid in ids:
         path = os.path.join(common.VERIF, "harness", "props", pid.lower() + ".py")
-        if not os.path.exists(path):
+        if not os.path.exists(path) or pid not in accepted:
             continue
         m = common.load_prop(pid)
         if getattr(m, "DISABLED", False):
